@@ -227,6 +227,26 @@ class Evaluator:
             return args[1]
         if name in ("copy.copy", "copy.deepcopy") and isinstance(args[0], Obj):
             return self._copy_obj(args[0], deep=name.endswith("deepcopy"), memo={})
+        if name == "functools.reduce" and len(args) in (2, 3) and isinstance(args[0], ExtRef) and args[0].name in ("operator.iadd", "operator.add", "operator.concat", "operator.iconcat"):
+            items = list(self._iterate(args[1], node))
+            if len(args) == 3:
+                acc = args[2]
+            elif items:
+                acc, items = items[0], items[1:]
+            else:
+                raise Raised("TypeError")
+            inplace = args[0].name in ("operator.iadd", "operator.iconcat")
+            for it in items:
+                if isinstance(acc, list) and isinstance(it, (list, tuple)):
+                    if inplace:
+                        acc.extend(it)  # operator.iadd on a list extends the FIRST list in place, exactly like Python does
+                    else:
+                        acc = acc + list(it)
+                elif isinstance(acc, int) and isinstance(it, int):
+                    acc = acc + it
+                else:
+                    raise NotEvaluable("functools.reduce over values outside the index domain")
+            return acc
         if name in ("dataclasses.asdict", "dataclasses.replace") and args and isinstance(args[0], Obj) and args[0]._cls is not None and self.repo is not None:
             fields = self.dataclass_fields(args[0]._cls)
             if fields:
